@@ -232,3 +232,43 @@ Proof.
   - rewrite qsum_scal, Hc. ring.
   - intros k _. rewrite qsum_scal. unfold c. field. exact Hrz.
 Qed.
+
+(* ---------- cyclic splines: the same characterisation with indices modulo n ---------- *)
+(* slopes of two pieces over ANY two intervals [ka,kb] and [kb',kc] (for the wrap-around node the right end of the last interval and
+   the left end of the first are different coordinates of the same node) *)
+Theorem c1_iff_general ka kb kb' kc ya yb yc ga gb gc : ~ kb - ka == 0 -> ~ kc - kb' == 0 ->
+  (piece_d1 ka kb ya yb ga gb kb == piece_d1 kb' kc yb yc gb gc kb'
+   <-> (kb - ka) / 6 * ga + ((kb - ka) + (kc - kb')) / 3 * gb + (kc - kb') / 6 * gc == (yc - yb) / (kc - kb') - (yb - ya) / (kb - ka)).
+Proof. intros H1 H2. apply eq_iff_sub. unfold piece_d1. field. split; assumption. Qed.
+
+Lemma qsum_pick n (f : nat -> Q) m : (m < n)%nat -> qsum n (fun j => delta j m * f j) == f m.
+Proof.
+  induction n as [|n IH]; intros Hm; [lia|]. cbn [qsum]. unfold delta at 2.
+  destruct (Nat.eqb_spec n m) as [->|Hne].
+  - rewrite (qsum_ext m _ (fun _ => 0)).
+    + assert (Hz : forall k, qsum k (fun _ => 0) == 0) by (induction k as [|k IHk]; cbn [qsum]; [reflexivity | rewrite IHk; ring]).
+      rewrite Hz. ring.
+    + intros i Hi. unfold delta. replace (Nat.eqb i m) with false by (symmetry; apply Nat.eqb_neq; lia). ring.
+  - rewrite IH by lia. ring.
+Qed.
+(* checkable: b.F = d for the cyclic system *)
+Definition cyclic_F_ok (kn : list Q) (F : nat -> nat -> Q) : bool :=
+  let n := (length kn - 1)%nat in
+  forallb (fun m => forallb (fun k => Qeq_bool (qsum n (fun j => cyc_B kn n m j * F j k)) (cyc_D kn n m k)) (seq 0 n)) (seq 0 n).
+Lemma prevn_lt n m : (m < n)%nat -> (prevn n m < n)%nat.
+Proof. intros H. unfold prevn. destruct (Nat.eqb m 0); lia. Qed.
+Lemma nextn_lt n m : (m < n)%nat -> (nextn n m < n)%nat.
+Proof. intros H. unfold nextn. destruct (Nat.eqb_spec (S m) n); lia. Qed.
+Theorem cyclic_F_ok_sound kn F : cyclic_F_ok kn F = true ->
+  let n := (length kn - 1)%nat in
+  forall m k, (m < n)%nat -> (k < n)%nat ->
+    hq kn (prevn n m) / 6 * F (prevn n m) k + (hq kn (prevn n m) + hq kn m) / 3 * F m k + hq kn m / 6 * F (nextn n m) k == cyc_D kn n m k.
+Proof.
+  unfold cyclic_F_ok. intros H. cbn zeta. set (n := (length kn - 1)%nat) in *. intros m k Hm Hk. rewrite forallb_forall in H.
+  assert (Hm' : In m (seq 0 n)) by (apply in_seq; lia). assert (Hk' : In k (seq 0 n)) by (apply in_seq; lia).
+  specialize (H m Hm'). rewrite forallb_forall in H. specialize (H k Hk').
+  apply Qeq_bool_iff in H. rewrite <- H. unfold cyc_B.
+  rewrite (qsum_ext n _ (fun j => delta j m * ((hq kn (prevn n m) + hq kn m) / 3 * F j k)
+                                  + (delta j (prevn n m) * (hq kn (prevn n m) / 6 * F j k) + delta j (nextn n m) * (hq kn m / 6 * F j k)))) by (intros; ring).
+  rewrite !qsum_plus. rewrite (qsum_pick n _ m Hm), (qsum_pick n _ (prevn n m) (prevn_lt n m Hm)), (qsum_pick n _ (nextn n m) (nextn_lt n m Hm)). ring.
+Qed.
